@@ -1,0 +1,18 @@
+// Copyright The gittuf Authors
+// SPDX-License-Identifier: Apache-2.0
+
+//go:build verif
+
+// gvc contracts (comment-only, read under the "verif" build tag).
+
+package v01
+
+//@ # C09: an authorization counts only for the exact change it names. The decoded statement is an arbitrary value
+//@ # (JSON/protobuf decoding is A-lib); what is proved is that acceptance implies every comparison against the
+//@ # requested (ref, from, to) was made on the decoded statement, on every path.
+//@ func [C09] Validate -> (err)
+//@   requires env != nil
+//@   ensures namesSubject: err == nil ==> len(attestation.Subject) >= 1 && attestation.Subject[0] != nil && has(attestation.Subject[0].Digest, digestGitTreeKey) == has(attestation.Subject[0].Digest, digestGitTreeKey) && ite(has(attestation.Subject[0].Digest, digestGitTreeKey), attestation.Subject[0].Digest[digestGitTreeKey], "") == targetTreeID
+//@   ensures namesTarget: err == nil ==> ite(has(predicate, targetTreeIDKey), predicate[targetTreeIDKey], nil) == toIfc(targetTreeID)
+//@   ensures namesFrom: err == nil ==> ite(has(predicate, fromRevisionIDKey), predicate[fromRevisionIDKey], nil) == toIfc(fromRevisionID)
+//@   ensures namesRef: err == nil ==> ite(has(predicate, targetRefKey), predicate[targetRefKey], nil) == toIfc(targetRef)
